@@ -550,6 +550,19 @@ package sql
 //@   at call QueryContext#1: assert same-statement: arg_ctx == ctx && arg_query == query && arg_args == args
 //@   may_panic
 
+// session reset (the pool's hook between two users of a connection): the target driver's answer is the
+// proxy's answer - driver.ErrBadConn in particular makes database/sql discard the connection
+//@ iface (driver.SessionResetter).ResetSession
+//@   ensures true
+//@ func (*Conn).ResetSession
+//@   prop C16
+//@   requires c != nil && c.targetConn != nil
+//@   modifies c.autoCommit, c.txCtx
+//@   ensures unsupported-is-skipped: !implements(c.targetConn, driver.SessionResetter) ==> result == driver.ErrSkip
+//@   ensures answer-is-the-target-drivers: implements(c.targetConn, driver.SessionResetter) ==> called("ResetSession#1") && !called("ResetSession#2") && result == callres("ResetSession#1", 0)
+//@   at call ResetSession#1: assert same-context: arg_ctx == ctx
+//@   may_panic
+
 // explicit transactions: the target driver is asked for exactly the transaction the caller asked for
 //@ func (*Conn).BeginTx
 //@   prop C16
